@@ -1142,6 +1142,11 @@ class _LabelAdder(TaskiqMiddleware):
         for name, val in (m.get("mw_labels") or {}).items():
             message.labels[name] = val
             w.fired("untyped_label_added_by_middleware")
+        pop = m.get("mw_pop_label")
+        if pop is not None and pop in message.labels:
+            # a label the middleware consumes (a routing key): removed after the kicker recorded its type
+            message.labels.pop(pop)
+            w.fired("typed_label_removed_by_middleware")
         if m.get("timeout_untyped") and m.get("timeout") is not None:
             message.labels["timeout"] = repr(float(m["timeout"]))
             w.fired("untyped_label_added_by_middleware")
@@ -1511,7 +1516,9 @@ async def _send(world: World, client: SimBroker, m: dict) -> None:
                 async_shared_broker.default_broker(client)
             kicker = task.kicker()
             labels = {name: dec_label(v) for name, v in (m.get("labels") or {}).items()}
-            if m.get("timeout") is not None and not (m.get("timeout_untyped") and world.config.get("client_label_adder")):
+            if m.get("timeout_raw") is not None:
+                labels["timeout"] = m["timeout_raw"]          # a timeout label that cannot be read as a number
+            elif m.get("timeout") is not None and not (m.get("timeout_untyped") and world.config.get("client_label_adder")):
                 labels["timeout"] = m["timeout"]
             if labels:
                 kicker = kicker.with_labels(**labels)
